@@ -569,4 +569,86 @@ example :
     readDecimal (writeDecimal ⟨.finite, false, 10000000000000000000, -3⟩) = .ok ⟨.finite, false, 10000000000000000000, -3⟩ ∧
     readDecimal (writeDecimal ⟨.finite, true, 0, -2⟩) = .ok ⟨.finite, false, 0, -2⟩ := by decide
 
+/-! ## tuple_order without `FastOk`: rows built by `TupleBuilder.Build` -/
+
+/-- every non-NULL field of a fixed-width column has exactly the column's width (true of every
+field written by a typed `Put*`: `PutInt32` writes 4 bytes, `PutDate` 4, `PutCommitAddr` 20 …) -/
+def WellSized : List TType → List Field → Prop
+  | t :: ts, f :: fs =>
+    (match t.enc.fixedSize, f with
+      | some sz, some b => b.length = sz
+      | _, _ => True) ∧ WellSized ts fs
+  | _, _ => True
+
+/-- the precondition of the fixed-offset loop follows from what `Build` checks (no NULL in a NOT
+NULL column: `nullCheck`) and from the widths of the fields; nullable or variable-width columns
+end the fixed prefix (`makeFixedAccess`), so nothing is required of them -/
+theorem fastOk_of_build : ∀ (ts : List TType) (fs : List Field), fs.length = ts.length →
+    nullCheck ts fs = true → WellSized ts fs → FastOk ts fs := by
+  intro ts
+  induction ts with
+  | nil => intro fs _ _ _; trivial
+  | cons t ts ih =>
+    intro fs hl hn hw
+    cases fs with
+    | nil => simp at hl
+    | cons f fs =>
+      simp only [List.length_cons, Nat.add_right_cancel_iff] at hl
+      simp only [nullCheck, Bool.and_eq_true, Bool.or_eq_true] at hn
+      obtain ⟨hf, hn'⟩ := hn
+      obtain ⟨hw0, hw'⟩ := hw
+      unfold FastOk
+      by_cases hnull : t.nullable = true
+      · simp [hnull]
+      · simp only [hnull, Bool.false_eq_true, if_false]
+        cases hsz : t.enc.fixedSize with
+        | none => trivial
+        | some sz =>
+          have hsome : f.isSome = true := by
+            rcases hf with h | h
+            · exact absurd h hnull
+            · exact h
+          cases f with
+          | none => simp at hsome
+          | some b =>
+            simp only [hsz] at hw0
+            exact ⟨b, fs, rfl, hw0, ih fs hl hn' hw'⟩
+
+/-- **tuple_order for built rows** (no `FastOk` hypothesis): two rows put into `TupleBuilder`s of
+the same descriptor and materialised with the strict `Build` compare, as tuples, exactly like
+the rows field by field with NULL first — for every descriptor, whatever its fixed-width NOT NULL
+prefix.  What the raw-offset loop of `Compare` assumes is discharged by `Build` itself. -/
+theorem tuple_order_built (b₁ b₂ : Builder) (s t : Bytes) (hty : b₁.types = b₂.types)
+    (l₁ : b₁.fields.length = b₁.types.length) (l₂ : b₂.fields.length = b₂.types.length)
+    (h₁ : b₁.build = .ok s) (h₂ : b₂.build = .ok t)
+    (w₁ : WellSized b₁.types b₁.fields) (w₂ : WellSized b₂.types b₂.fields) :
+    compareTuples b₁.types s t = specTupleCompare b₁.types 0 b₁.fields b₂.fields := by
+  have key : ∀ (b : Builder) (u : Bytes), b.fields.length = b.types.length → b.build = .ok u →
+      WellSized b.types b.fields → newTuple b.fields = .ok u ∧ FastOk b.types b.fields := by
+    intro b u hl hb hw
+    unfold Builder.build at hb
+    by_cases hn : nullCheck b.types b.fields = true
+    · rw [if_pos hn] at hb
+      unfold Builder.buildPermissive at hb
+      rw [← hl, List.take_length] at hb
+      exact ⟨hb, fastOk_of_build _ _ hl hn hw⟩
+    · rw [if_neg hn] at hb; cases hb
+  obtain ⟨n₁, f₁⟩ := key b₁ s l₁ h₁ w₁
+  obtain ⟨n₂, f₂⟩ := key b₂ t l₂ h₂ w₂
+  exact tuple_order b₁.types b₁.fields b₂.fields s t n₁ n₂ f₁ (hty ▸ f₂)
+
+/-- `Builder.new` / `put` keep one field slot per column, so the length hypotheses always hold -/
+theorem builder_lengths (ts : List TType) (i : Nat) (bytes : Bytes) (b : Builder)
+    (h : b.fields.length = b.types.length) :
+    (Builder.new ts).fields.length = (Builder.new ts).types.length ∧
+    (b.put i bytes).fields.length = (b.put i bytes).types.length := by
+  simp [Builder.new, Builder.put, h]
+
+example :
+    let ts : List TType := [⟨.int32, false⟩, ⟨.string, true⟩]
+    let b := ((Builder.new ts).put 0 (writeI32 5)).put 1 (writeByteString [97])
+    WellSized b.types b.fields ∧ b.build = .ok [5, 0, 0, 0, 97, 0, 4, 0, 2, 0] := by
+  refine ⟨?_, by decide⟩
+  exact ⟨by simp [Enc.fixedSize, writeI32, writeU32, leBytes_length], trivial, trivial⟩
+
 end DoltVerif.C15
